@@ -166,9 +166,12 @@ static int filter_assembly_str_fsa(const char unfiltered_str[],
       break;
     }
     // last printable ascii character
+    if (unfiltered_str[i] > '~')
+      AL_VERIF_FILTERED(unfiltered_str, filter_str, j, EXIT_FAILURE);
     FAIL_IF_MSG(unfiltered_str[i] > '~', "Printable ascii characters only\n");
     i++;
   }
+  AL_VERIF_FILTERED(unfiltered_str, filter_str, j, i);
   return i;
 }
 
@@ -306,6 +309,7 @@ static int assemble_with_chunk_fitting(assemblyline_t al,
     // check the number of bytes available in chunk
     size_t free_chunk_space = al->chunk_size - (*buf_pos % al->chunk_size);
     size_t written_length = assemble_asm(new_instr, al->buffer + *buf_pos);
+    AL_VERIF_EMIT(al, *buf_pos, written_length, al->buffer_len, 2);
     // write machine code to memory if there is sufficient chunk space
     if (written_length <= free_chunk_space ||
         written_length >= al->chunk_size ||
